@@ -123,7 +123,9 @@ class _Dedup(list):
 
     def append(self, f):
         import re
-        sig = re.sub(r'[0-9]+', '#', f['detail'])[:90]
+        # one example per (what went wrong, which mutation class): a known finding is keyed by both, so the same symptom under
+        # another mutation is still reported
+        sig = re.sub(r'[0-9]+', '#', f['detail'])[:90] + ' @ ' + re.sub(r'[0-9]+', '#', str((f.get('input') or {}).get('mutation', '')))
         if sig in self.seen:
             return
         self.seen.add(sig)
@@ -277,7 +279,18 @@ def bounded_pipeline(seed, tier):
                         problems.append('C05: AK9 counts not numeric: %s' % s.format('~', '*', ':'))
                 ok_sets = len([c for c in ak5 if c in ('A', 'E')])
                 if ak9 and sum(int(s.get_value('04')) for s in ak9 if (s.get_value('04') or '').isdigit()) != ok_sets:
-                    problems.append('C05: sum of AK904 differs from the number of accepted AK5 (%d)' % ok_sets)
+                    n_st_src = len([x for x in s2 if x.split('*')[0] == 'ST'])
+                    n_ak2 = len([x for x in asegs if x.get_seg_id() == 'AK2'])
+                    open_groups = len([x for x in s2 if x.split('*')[0] == 'GS']) > len([x for x in s2 if x.split('*')[0] == 'GE'])
+                    if not open_groups:
+                        try:
+                            open_groups = any((e[0] == 'gs' and e[1] == '3') or 'Unterminated Loop GS' in str(e[2]) for e in read_envelope_errors(text)[1])   # no GE where the group ends
+                        except Exception:
+                            pass
+                    # the two input classes of the listed findings are named in the text, so that the same symptom on any other input is new
+                    why = ' [an ST segment that opens no set node is counted]' if n_st_src > n_ak2 else \
+                        (' [a group without its GE: totals are left at 0]' if open_groups else '')
+                    problems.append('C05: sum of AK904 differs from the number of accepted AK5 (%d)%s' % (ok_sets, why))
                 src_st = [s.split('*')[2] for s in s2 if s.startswith('ST*') and len(s.split('*')) > 2]
                 ak2 = [s.get_value('02') for s in asegs if s.get_seg_id() == 'AK2']
                 if [x.strip() for x in src_st] != ak2 and len(ak2) != 0 and label in ('identity',):
@@ -295,7 +308,7 @@ def bounded_pipeline(seed, tier):
                         failures.append({'input': inp, 'detail': '; '.join(problems[:3]), 'class': label})
     return {'function': 'x12n_document (walker, map validation, error tree, 997/999/HTML/XML sinks)', 'evaluations': n,
             'bound': '%d fixtures x mutation catalogue (+%d seeded random mutations each) x sink subsets, seed %d' % (len(docs), n_random, seed),
-            'failures': list(failures)[:40]}
+            'failures': list(failures)[:120]}
 
 
 ECHO_REFDES = ('ISA05', 'ISA06', 'ISA07', 'ISA08', 'ISA11', 'ISA12', 'ISA15', 'GS02', 'GS03', 'GS06', 'GS07', 'GE02', 'AK101', 'AK902', 'AK102', 'AK103', 'AK201', 'AK202', 'AK203', 'AK301', 'AK303', 'AK404', 'IK301', 'IK303', 'IK404', 'CTX01', 'CTX02')
@@ -422,8 +435,12 @@ def bounded_reencode(seed, tier):
                             all(a.replace(':', '').replace(sub, '') == b.replace(':', '').replace(sub, '') for a, b in zip(base[1], got[1]))
                         # K11 is the echo of an INPUT VALUE that holds more components than the map allows; any other dependence on the
                         # component separator (e.g. the acknowledgement's own composites) is a different violation
-                        k11 = only_sep and lab.startswith('extra component') and all(
-                            a == b or (':::' in a and a[:3] in ('AK2', 'AK4', 'IK4', 'AK3')) for a, b in zip(base[1], got[1]))
+                        strip = lambda x: x.replace(':', '').replace(sub, '')
+                        # (since fix a5ea4e2 the ':'-encoded document no longer quotes such a value in AK404 at all, because it holds the
+                        # acknowledgement's own component separator, while the re-encoded one still does: same root cause, K4b)
+                        k11 = lab.startswith('extra component') and got[0] == base[0] and len(got[1]) == len(base[1]) and all(
+                            a == b or (strip(a) == strip(b) and ':::' in a and a[:3] in ('AK2', 'AK4', 'IK4', 'AK3')) or
+                            (a[:3] in ('AK4', 'IK4') and b.startswith(a + '*') and sub * 3 in b) for a, b in zip(base[1], got[1]))
                         kind = 'an echoed composite value keeps the input component separator' if k11 else \
                             ('the acknowledgement body depends on the input component separator' if only_sep else 'results differ')
                         sig = (kind, lab)
